@@ -356,8 +356,8 @@ Proof.
   - rewrite Epl. exact Hdec.
 Qed.
 
-Theorem response_roundtrip v29 vc now r r' info content :
-  resp_ok r = true -> rd_no_crlf now = true -> r_prepare C v29 now r = Some r' ->
+Theorem response_roundtrip v59 v29 vc now r r' info content :
+  resp_ok v59 r = true -> rd_no_crlf now = true -> r_prepare C v59 v29 now r = Some r' ->
   r_bodiless (r_code r) (r_rmethod r) = false ->
   no_list_fields (r_hdrs r') = true -> b_trailer (r_body r') = [] ->
   let line := StartLine.proto_compose (r_version r) ++ SP :: StartLine.print_dec (r_code r) ++ SP :: r_reason r in
@@ -372,7 +372,7 @@ Theorem response_roundtrip v29 vc now r r' info content :
       (init, [ {| m_line := line; m_hdrs := delivered_for fr (r_hdrs r') content; m_body := content |} ], None).
 Proof.
   intros Hok Hnow Hp Hbl Hnl Htr line Hstart Hp11 Hce Hdec Hhd Hnc Hdig.
-  destruct (r_prepare_framed C v29 vc now r r' Hok Hnow Hp) as [Ev [Ec [Er [Em [Hh [Htr' [Hso [Hpi [fr [Hf [Hb1 _]]]]]]]]]]]. cbv zeta in Hb1.
+  destruct (r_prepare_framed C v59 v29 vc now r r' Hok Hnow Hp) as [Ev [Ec [Er [Em [Hh [Htr' [Hso [Hpi [fr [Hf [Hb1 _]]]]]]]]]]]. cbv zeta in Hb1.
   destruct (Hb1 Hbl) as [Hb [_ Hnn]].
   pose proof Hok as Hok'. unfold resp_ok in Hok'.
   apply andb_true_iff in Hok' as [Hok' _]. apply andb_true_iff in Hok' as [Hok' Hbd]. apply andb_true_iff in Hok' as [Hok' _].
@@ -433,3 +433,19 @@ Lemma decodes_asfound_multi C PC id h ce ps : hget H_CE h = Some ce ->
   (forall xs, c_decode PC (stripv ce) (concat_bytes (map (cc_comp C id) xs)) = DcOk (concat_bytes xs)) ->
   decodes PC h (concat_bytes (encode_pieces C AsFound (Some id) ps)) (concat_bytes ps).
 Proof. intros Hce Hd. unfold decodes. rewrite Hce, payload_asfound. apply Hd. Qed.
+
+(* ---- finding D59 (stale content coding on a reused Response object), tree as found: the client machine, with callees that accept the
+   start line and the fields and pass the body through, takes the first six octets of the coded stream for the body and keeps the rest
+   as the start of a next message.  After the repair the content comes back. ---- *)
+Definition PC_plain : callees := {|
+  c_start := fun _ => SlOk {| p11 := true; nobody := false |}; c_hdrs := fun _ _ => HOk; c_decode := fun _ d => DcOk d;
+  c_2047 := fun _ => RMiss; c_trailer := fun _ => TrOk []; c_connect := fun _ => false |}.
+Lemma stale_coding_roundtrip_refuted :
+  exists r', r_prepare C_mark AsFound Repaired D29_now D59_response = Some r' /\
+    exists st m, parse reference PC_plain Client init (fst (r_compose C_mark AsFound r')) = (st, [m], None) /\
+      m_body m = X "1f8b7365636f" /\ buf st = X "6e64".
+Proof. eexists. split; [vm_compute; reflexivity|]. eexists. eexists. split; [vm_compute; reflexivity|]. split; vm_compute; reflexivity. Qed.
+Lemma stale_coding_roundtrip_repaired_example :
+  exists r', r_prepare C_mark Repaired Repaired D29_now D59_response = Some r' /\
+    exists m, parse reference PC_plain Client init (fst (r_compose C_mark AsFound r')) = (init, [m], None) /\ m_body m = X "7365636f6e64".
+Proof. eexists. split; [vm_compute; reflexivity|]. eexists. split; vm_compute; reflexivity. Qed.
